@@ -166,15 +166,25 @@ def run(case):
             bl = BatchLoader(order=int(rng.choice([0, 1, 3])), scale=float(rng.choice([1.0, 0.7])),
                              output_shape=(Sb,) * 3, corner_safe=cs)
             singles, ns = [], []
-            for j in range(2):
+            # image ids: automatic, or explicit ones whose order of registration is not their sorted order
+            ids_ = [(None, None, None), (5, 2, 9), ("tomo_b", "tomo_a", "tomo_c"), (7, None, None)][int(rng.integers(0, 4))]
+
+            def _one(j):
                 Tb = tuple(int(x) for x in rng.integers(Sb + 12, Sb + 18, size=3))
                 volb = rng.normal(size=Tb).astype(np.float32)
                 nb = int(rng.integers(1, 4))
                 posb = (np.asarray(Tb) / 2 + rng.uniform(-2, 2, size=(nb, 3))) * bl.scale
                 mb = Molecules(posb, _R.random(nb, random_state=int(rng.integers(0, 2**31))))
-                bl.add_tomogram(volb, mb)
-                singles.append(SubtomogramLoader(volb, mb, order=bl.order, scale=bl.scale, output_shape=(Sb,) * 3,
-                                                 corner_safe=cs))
+                return volb, mb, SubtomogramLoader(volb, mb, order=bl.order, scale=bl.scale, output_shape=(Sb,) * 3,
+                                                   corner_safe=cs), nb
+
+            for j in range(2):
+                volb, mb, sl_, nb = _one(j)
+                if ids_[j] is None:
+                    bl.add_tomogram(volb, mb)
+                else:
+                    bl.add_tomogram(volb, mb, image_id=ids_[j])
+                singles.append(sl_)
                 ns.append(nb)
             avg_b = np.asarray(bl.average())
             comb_b = sum(n * np.asarray(sl.average()) for n, sl in zip(ns, singles)) / sum(ns)
@@ -191,7 +201,24 @@ def run(case):
             eb = float(dvb.max())
             case.maxobs("max_batch_rotated_err", eb)
             case.check(eb <= 2e-4, "batch average (rotated molecules) != count-weighted mean of the averages of single "
-                       "loaders with the same options", None, err=eb, corner_safe=cs, box=Sb, order=bl.order)
+                       "loaders with the same options", None, err=eb, corner_safe=cs, box=Sb, order=bl.order, ids=str(ids_))
+            # a derived batch that lost its first tomogram and then gains another one (automatic id must be fresh)
+            import polars as _pl
+            first_id = bl.molecules.features["image-id"][0]
+            rest = bl.filter(_pl.col("image-id") != first_id)
+            volc, mc, slc, nc = _one(2)
+            if isinstance(ids_[2], str):
+                rest.add_tomogram(volc, mc, image_id=ids_[2])    # (int and str ids cannot share a column)
+            else:
+                rest.add_tomogram(volc, mc)
+            avg_r = np.asarray(rest.average())
+            comb_r = (ns[1] * np.asarray(singles[1].average()) + nc * np.asarray(slc.average())) / (ns[1] + nc)
+            dvr = np.abs(avg_r - comb_r)
+            if bl.order == 0 and int((dvr > 2e-4).sum()) <= 3:
+                dvr = np.where(dvr > 2e-4, 0.0, dvr)
+            case.check(float(dvr.max()) <= 2e-4 and rest.count() == ns[1] + nc,
+                       "batch average after dropping a tomogram and adding another != count-weighted mean of the single "
+                       "loaders", None, err=float(dvr.max()), ids=str(ids_), count=rest.count(), want=ns[1] + nc)
         if p["kind"] == "group":
             grp = loader.groupby("g")
             ga = grp.average()
